@@ -270,7 +270,7 @@ def main():
         'violations': len(violations),
     }
     ev['coverage'].update(extra_info or {})
-    if not a.only and REPO == '/repo':
+    if not a.only and REPO == '/repo' and not os.environ.get('SUPP_VERIF_KEEP_EVIDENCE'):   # (set by tools/seed_*.py)
         os.makedirs(os.path.join(HERE, 'evidence'), exist_ok=True)
         with open(os.path.join(HERE, 'evidence', prop + '.json'), 'w') as f:
             json.dump(ev, f, indent=1, default=str)
